@@ -403,7 +403,7 @@ STANDIN_BOUND = {
     "consist": "29 token streams x 3 thresholds: validator(span words) == occurrence text; at threshold 0 no lone number word is left out",
     "thr": "29 token streams x 3 thresholds: threshold only hides small lone numbers; 3 linked-number sentences",
     "iter": "29 token streams x 3 thresholds: find_numbers_iter == find_numbers; hint-free streams also with tokens that keep the trait's default hint methods",
-    "orule": "11 English sentences with 'o' next to words, punctuation and no-break spaces; plus 270 systematic neighbourhoods: 10 left contexts x 9 right contexts (number word, ordinary word, comma, dash, other punctuation, text boundary) x 3 kinds of whitespace",
+    "orule": "17 English sentences with 'o' next to words, punctuation and no-break spaces, and after a swallowed 'and' / 'point' while a number is pending; plus 270 systematic neighbourhoods: 10 left contexts x 9 right contexts (number word, ordinary word, comma, dash, other punctuation, text boundary) x 3 kinds of whitespace",
     "ncase": "11 words with non-ASCII letters, those letters capitalised",
     "phrases": "per language about 2 800 integers below 10^12 (all of 0..1200, 1900..2030, structured multiples of 10^3/10^6/10^9, 1 500 random "
                "ones from VERIF_SEED; pt below 10^6; de without the known 'eine' cases) spelled by tools/spell.py: text2digits == digits and the phrase "
